@@ -605,6 +605,9 @@ class ImageWarpOnOtherTargets:
         for model in ("AffineTransform", "DisplacementFieldTransform", "StationaryVelocityFieldTransform", "FreeFormDeformation"):
             for target in ("same", "crop", "shift", "finer"):
                 yield {"model": model, "target": target}
+            # the source image lies on a grid read with the other align_corners flag than the transformation's grid
+            yield {"model": model, "target": "same", "source_flag": "other"}
+            yield {"model": model, "target": "crop", "source_flag": "other"}
 
     def run(self, case, K):
         import deepali.spatial as sp
@@ -662,7 +665,8 @@ class ImageWarpOnOtherTargets:
         coef = torch.tensor([r.uniform(-1, 1) for _ in range(D)])
         c0 = r.uniform(-1, 1)
         img = (xw @ coef + c0).reshape(1, 1, *g.shape)
-        tr = K.call(sp.ImageTransformer, t, target=tg, source=g)
+        src = g.align_corners(not g.align_corners()) if case.get("source_flag") == "other" else g  # same lattice either way
+        tr = K.call(sp.ImageTransformer, t, target=tg, source=src)
         if not K.ensure_returns(tr):
             return
         out = K.call(tr, img)
